@@ -621,3 +621,118 @@ contract(
     native_ok=False, crosscheck=False, refute=False,
     slice_note="body of `if self.S[e_name] == 0.0`",
 )
+
+
+# ---------------------------------------------------------------------------------------------------
+# gamma_method: vanishing-variance guard, normalised autocorrelation, cumulative tau_int with its clamp, dtauint (eq. 42)
+
+def _is_tiny_if(node):
+    return isinstance(node, ast.If) and "tiny" in ast.dump(node.test) and "e_gamma" in ast.dump(node.test)
+
+
+def _rho_slice(mod, fnode):
+    loops = [n for n in ast.walk(fnode) if isinstance(n, ast.For)]
+    for lp in loops:
+        for i, st in enumerate(lp.body):
+            if _is_tiny_if(st):
+                out = []
+                for st2 in lp.body[i:]:
+                    out.append(st2)
+                    if isinstance(st2, ast.Assign) and "e_n_dtauint" in ast.dump(st2.targets[0]) and isinstance(st2.targets[0], ast.Subscript) \
+                            and isinstance(st2.targets[0].value, ast.Subscript):
+                        return out          # self.e_n_dtauint[e_name][0] = 0.0
+    from pyvc.sym import CheckerError
+    raise CheckerError("contract no longer binds: the vanishing-variance guard of gamma_method was not found")
+
+
+def _rho_pre_hook(interp, mod, fnode, args):
+    from pyvc.lib import CAPTURE
+    CAPTURE.clear()
+
+
+def _absr2(x):
+    return Ite(x >= 0, x, -x)
+
+
+def _rho_native(args):
+    o = args["self"]
+    o.gamma_method()
+    from pyvc.driver import Namespace
+    return Namespace({"self": o})
+
+
+def _rho_gen(rng, case):
+    import numpy as np
+    from pyvc.native import repo_module
+    pe = repo_module("pyerrors.obs")
+    n = rng.choice([12, 20, 33])
+    r = np.random.default_rng(rng.randint(0, 10 ** 6))
+    scale = rng.choice([1.0, 1.0, 1e-3, 1e-9, 1e-12, 0.0])
+    x = 1.0 + scale * r.normal(size=n)
+    o = pe.Obs([x], ["A"])
+    d = o.deltas["A"]
+    return {"self": o, "e_name": "A", "e_N": n, "w_max": n // 2, "e_gamma": {"A": np.array([float(np.sum(d * d)) / n])}}
+
+
+def _rho_post_native(a, r):
+    import numpy as np
+    o = r.self
+    g0 = float(a.e_gamma["A"][0])
+    small = abs(g0) < 10 * np.finfo(float).tiny
+    shortcut = "A" not in o.e_rho or len(o.e_rho["A"]) == 0 or (o.e_dvalue["A"] == 0.0 and o.e_windowsize["A"] == 0 and o.e_tauint["A"] == 0.5
+                                                                  and not np.any(o.e_rho["A"]))
+    out = {"guard: only a vanishing variance short-circuits the analysis": bool(shortcut) == bool(small)}
+    if not shortcut:
+        rho, tau, dtau = o.e_rho["A"], o.e_n_tauint["A"], o.e_n_dtauint["A"]
+        u = np.cumsum(np.concatenate(([0.5], rho[1:])))
+        exp_tau = np.where(u <= 0.5, 0.5 + np.finfo(np.float64).eps, u)
+        out["tau_int(W) = max-clamped 1/2 + sum_{t<=W} rho(t)"] = bool(np.allclose(tau, exp_tau, rtol=1e-12, atol=0))
+        exp_d = tau * 2 * np.sqrt(np.abs(np.arange(len(tau)) + 0.5 - tau) / a.e_N)
+        exp_d[0] = 0.0
+        out["dtau_int (eq. 42)"] = bool(np.allclose(dtau, exp_d, rtol=1e-12, atol=0))
+        out["rho = Gamma / Gamma(0)"] = bool(abs(rho[0] - 1.0) < 1e-12)
+    return out
+
+
+def _rho_post(a, r):
+    from pyvc.lib import CAPTURE, SUM, _TINY, _EPS
+    if not isinstance(a.self, SObj):
+        return _rho_post_native(a, r)
+    o = r.self
+    G = D(a.e_gamma, "A")
+    g0 = At(G, 0)
+    w, N = a.w_max, a.e_N
+    small = _absr2(g0) < 10 * _TINY
+    if r.__continued__ is True:
+        return {"guard: only a vanishing variance short-circuits the analysis": small,
+                "constant data": And(eq(D(A(o, "e_tauint"), "A"), Fraction(1, 2)), eq(D(A(o, "e_dtauint"), "A"), 0), eq(D(A(o, "e_dvalue"), "A"), 0),
+                                     eq(D(A(o, "e_ddvalue"), "A"), 0), D(A(o, "e_windowsize"), "A") == 0)}
+    rho, tau, dtau = D(A(o, "e_rho"), "A"), D(A(o, "e_n_tauint"), "A"), D(A(o, "e_n_dtauint"), "A")
+    out = {"guard: only a vanishing variance short-circuits the analysis": Not(small),
+           "rho = Gamma / Gamma(0)": And(Len(rho) == w, ForAll(0, w, lambda t: eq(At(rho, t), At(G, t) / g0)))}
+    cs = CAPTURE.get("np.cumsum", [])
+    if len(cs) != 1:
+        out["tau_int is a cumulative sum"] = False
+        return out
+    X, U = cs[0]
+    clamp = lambda x: Ite(x <= Fraction(1, 2), Fraction(1, 2) + _EPS, x)
+    out["summands: 1/2, rho(1), rho(2), ..."] = And(Len(X) == w, eq(At(X, 0), Fraction(1, 2)), ForAll(1, w, lambda t: eq(At(X, t), At(rho, t))))
+    out["tau_int(W) = max-clamped 1/2 + sum_{t<=W} rho(t)"] = And(Len(tau) == w, ForAll(0, w, lambda t: eq(At(tau, t), clamp(wrap(SUM(X.arr, t + 1))))))
+    out["dtau_int (eq. 42)"] = And(Len(dtau) == w, eq(At(dtau, 0), 0), ForAll(1, w, lambda t: eq(
+        At(dtau, t), At(tau, t) * 2 * _sqrt(_absr2(t + Fraction(1, 2) - At(tau, t)) / N))))
+    return out
+
+
+contract(
+    REL + "::Obs.gamma_method", name=REL + "::Obs.gamma_method[rho, cumulative tau_int]", props=["C02", "C03"],
+    slice=_rho_slice, pre_execute=_rho_pre_hook,
+    params=dict(self=Custom(_gm_obj), e_name=Const("A"), e_N=Int(lo=5), w_max=Int(lo=2), e_gamma=Custom(_gamma_dict)),
+    requires=lambda a: {"gamma-length": Len(D(a.e_gamma, "A")) == a.w_max} if isinstance(a.self, SObj) else {},
+    writable_attrs={"self": GM_WRITABLE},
+    ensures=_rho_post,
+    native_call=_rho_native, gen=_rho_gen, crosscheck=False, refute=False,
+    slice_note="from the vanishing-variance guard `if np.abs(e_gamma[e_name][0]) < 10 * tiny` to `self.e_n_dtauint[e_name][0] = 0.0`; "
+               "live-in variables self, e_name, e_N, w_max, e_gamma (the normalised autocorrelation function)",
+    note="float.tiny and float.eps are symbolic constants with 0 < tiny < eps < 1: a guard that compares with another constant is a "
+         "different formula",
+)
